@@ -13,6 +13,7 @@
 #include <csetjmp>
 #include <cerrno>
 #include <clocale>
+#include <sys/stat.h>
 #include <algorithm>
 #include <string>
 #include <vector>
@@ -30,6 +31,7 @@ int eav_cli_main(int argc, char **argv);
 // independent copy of the library (own decoder), every global renamed ref_*: the reference model's oracle
 void ref_eav_init(eav_t *); int ref_eav_setup(eav_t *); int ref_eav_is_email(eav_t *, const char *, size_t); const char *ref_eav_errstr(eav_t *);
 FILE *__real_fopen(const char *, const char *);
+int __real_fileno(FILE *); int __real_fstat(int, struct stat *);
 }
 
 using std::string;
@@ -65,6 +67,7 @@ struct Op {
     string s; int t = 0;        // LINE: bytes, terminator 0=LF 1=CRLF 2=none
     vector<long long> chunks;   // FILE: read sizes, cycled; empty = as much as asked
     string ff_kind; int ff_errno = 0; long long ff_at = -1; int ff_transient = 0; // FILE fault
+    int fkind = 0;              // FILE: what fstat() says - 0 regular file (st_size = length), 1 FIFO/pipe (st_size = 0)
     string of_kind; long long of_at = -1; int of_errno = 0;                        // INVOKE: stdout fault
 };
 struct Plan { string cfg = "nofault"; uint64_t seed = 0; long long index = -1; vector<Op> ops; };
@@ -76,6 +79,7 @@ static sj::Value op_to_json(const Op &op) {
     if (op.k == "FILE") {
         sj::Value c = sj::Value::array(); for (auto x : op.chunks) c.push(sj::Value::integer(x));
         j.set("chunks", c);
+        if (op.fkind) j.set("kind", op.fkind);
         if (!op.ff_kind.empty()) { sj::Value f = sj::Value::object(); f.set("kind", op.ff_kind); f.set("errno", op.ff_errno); f.set("at", op.ff_at); f.set("transient", op.ff_transient); j.set("ff", f); }
     }
     if (op.k == "INVOKE" && !op.of_kind.empty()) { sj::Value f = sj::Value::object(); f.set("kind", op.of_kind); f.set("at", op.of_at); f.set("errno", op.of_errno); j.set("of", f); }
@@ -94,7 +98,7 @@ static Plan plan_from_json(const sj::Value &j) {
     if (ops) for (auto &e : ops->a) {
         Op op; op.k = e.gets("k");
         if (op.k != "INVOKE" && op.k != "FILE" && op.k != "LINE") continue;
-        op.s = e.gets("s"); op.t = (int)e.geti("t");
+        op.s = e.gets("s"); op.t = (int)e.geti("t"); op.fkind = (int)e.geti("kind");
         const sj::Value *c = e.get("chunks"); if (c) for (auto &x : c->a) op.chunks.push_back(x.i < 1 ? 1 : x.i);
         const sj::Value *f = e.get("ff");
         if (f && f->kind == sj::Value::Obj) { op.ff_kind = f->gets("kind"); op.ff_errno = (int)f->geti("errno"); op.ff_at = f->geti("at", -1); op.ff_transient = (int)f->geti("transient"); }
@@ -106,7 +110,7 @@ static Plan plan_from_json(const sj::Value &j) {
 }
 
 // structured view of a plan (ops interpreted modulo structure: any subsequence is legal)
-struct SFile { string data; vector<long long> chunks; string ff_kind; int ff_errno = 0; long long ff_at = -1; int ff_transient = 0; int nlines = 0; };
+struct SFile { int fkind = 0; string data; vector<long long> chunks; string ff_kind; int ff_errno = 0; long long ff_at = -1; int ff_transient = 0; int nlines = 0; };
 struct SInv { vector<SFile> files; string of_kind; long long of_at = -1; int of_errno = 0; };
 static vector<SInv> structure(const Plan &p) {
     vector<SInv> inv;
@@ -114,7 +118,7 @@ static vector<SInv> structure(const Plan &p) {
         if (op.k == "INVOKE") { SInv i; i.of_kind = op.of_kind; i.of_at = op.of_at; i.of_errno = op.of_errno; inv.push_back(i); }
         else if (op.k == "FILE") {
             if (inv.empty()) inv.push_back(SInv());
-            SFile f; f.chunks = op.chunks; f.ff_kind = op.ff_kind; f.ff_errno = op.ff_errno; f.ff_at = op.ff_at; f.ff_transient = op.ff_transient;
+            SFile f; f.fkind = op.fkind; f.chunks = op.chunks; f.ff_kind = op.ff_kind; f.ff_errno = op.ff_errno; f.ff_at = op.ff_at; f.ff_transient = op.ff_transient;
             if (inv.back().files.size() < 400) inv.back().files.push_back(f);
         } else {
             if (inv.empty()) inv.push_back(SInv());
@@ -134,6 +138,7 @@ struct FileState {
     const SFile *f = nullptr; size_t pos = 0; size_t chunk_i = 0; bool failed_once = false; bool eof_reported = false;
     long reads = 0, reads_after_eof = 0, short_reads = 0; bool fault_fired = false; bool opened = false; bool closed = false;
     size_t out_begin = 0, out_end = 0; bool out_marked = false;
+    FILE *fp = nullptr;
 };
 struct Sim {
     const SInv *inv = nullptr;
@@ -200,12 +205,30 @@ extern "C" FILE *__wrap_fopen(const char *path, const char *mode) {
                 S->in_harness--;                // FILE + stream buffer belong to the tool's run (freed by fclose)
                 r = fopencookie(new Cookie{ idx }, "r", io);
                 S->in_harness++;
+                st.fp = r;
             }
         } else errno = ENOENT;
         S->in_harness--;
         return r;
     }
     return __real_fopen(path, mode);
+}
+
+// what the simulated file system says about an input stream: descriptor numbers 1000+N, fstat() per the plan's file kind
+extern "C" int __wrap_fileno(FILE *f) {
+    if (S && f) for (size_t i = 0; i < S->fs.size(); i++) if (S->fs[i].fp == f && !S->fs[i].closed) return 1000 + (int)i;
+    return __real_fileno(f);
+}
+extern "C" int __wrap_fstat(int fd, struct stat *st) {
+    if (S && fd >= 1000 && fd < 1000 + (int)S->fs.size()) {
+        const SFile &f = *S->fs[fd - 1000].f;
+        memset(st, 0, sizeof *st);
+        st->st_mode = f.fkind ? (S_IFIFO | 0600) : (S_IFREG | 0644);
+        st->st_size = f.fkind ? 0 : (off_t)f.data.size();
+        st->st_blksize = 4096; st->st_nlink = 1;
+        return 0;
+    }
+    return __real_fstat(fd, st);
 }
 
 static ssize_t out_cb(void *c, const char *buf, size_t size) {
@@ -643,7 +666,7 @@ static Plan gen_plan(const string &cfg, uint64_t seed, long long index) {
             nf = NF[sim_below(&w, 17)];
         }
         for (int fi = 0; fi < nf; fi++) {
-            Op fo; fo.k = "FILE";
+            Op fo; fo.k = "FILE"; fo.fkind = sim_below(&w, 7) == 0 ? 1 : 0;      // one operand in seven is a FIFO / pipe (fstat says size 0)
             int nl; unsigned lc = (unsigned)sim_below(&w, 100);
             if (lc < 8) nl = 0; else if (lc < 50) nl = 1 + (int)sim_below(&w, 5); else nl = 1 + (int)sim_below(&w, 40);
             if (many) nl = (int)sim_below(&w, 3);
